@@ -43,16 +43,15 @@ Section RunQ.
 
   Theorem run_sound_q q c row :
     q_cond q = Some c -> wfq c = true -> ok TS [] c = true ->
-    NoDup (flat_map opnd_vars (q_sels q)) ->
     (forall x, In x (cond_vars c ++ flat_map opnd_vars (q_sels q)) -> D x <> []) ->
     In row (run W D q) -> answer W D q row.
   Proof.
-    intros Ec Wf Ok Hnd Hne Hin. unfold run in Hin. apply in_flat_map in Hin as (b1 & Hb1 & Hrow).
+    intros Ec Wf Ok Hne Hin. unfold run in Hin. apply in_flat_map in Hin as (b1 & Hb1 & Hrow).
     rewrite Ec in Hb1. simpl in Hb1. apply in_map_iff in Hb1 as ([b f] & <- & Hf).
     apply filter_In in Hf as [Hf Ht]. simpl in *. destruct f; [discriminate|].
     assert (Hb : b_ok D b) by (eapply eval_bok_q; eauto; apply b_ok_nil).
     assert (He0 : extends (fill D b) b). { intros x v Hl. unfold fill. now rewrite Hl. }
-    destruct (select_sound W D _ _ _ _ Hrow Hnd Hb He0) as (rho & He & Hag & Hdm & ->).
+    destruct (select_sound W D _ _ _ _ Hrow Hb He0) as (rho & He & Hag & Hdm & ->).
     assert (Hdom : forall x, In x (cond_vars c ++ flat_map opnd_vars (q_sels q)) -> In (rho x) (D x)).
     { intros x Hx. destruct (in_dec Nat.eq_dec x (flat_map opnd_vars (q_sels q))) as [Hi|Hi]; auto.
       rewrite Hag by exact Hi. unfold fill. destruct (lookup b x) eqn:El.
@@ -104,12 +103,11 @@ Section RunQ.
 
   Theorem run_exact_q q c :
     q_cond q = Some c -> wfq c = true -> ok TS [] c = true -> ok TC [] c = true ->
-    NoDup (flat_map opnd_vars (q_sels q)) ->
     (forall x, In x (flat_map opnd_vars (q_sels q)) -> ~ In x (qvars c)) ->
     (forall x, In x (cond_vars c ++ flat_map opnd_vars (q_sels q)) -> D x <> []) ->
     forall row, In row (run W D q) <-> answer W D q row.
   Proof.
-    intros Ec Wf Ots Otc Hnd Hsq Hne row. split.
+    intros Ec Wf Ots Otc Hsq Hne row. split.
     - eapply run_sound_q; eauto.
     - eapply run_complete_q; eauto. intros x Hx. apply Hne. apply in_or_app. left. now apply qvars_sub_vars.
   Qed.
@@ -141,7 +139,8 @@ Proof.
   - apply andb_prop in Q as [Ql Qr].
     destruct (IHl Ql bnd) as (W1 & T1 & F1 & S1 & G1).
     destruct (IHr Qr bnd) as (W2 & T2 & F2 & S2 & G2).
-    rewrite W1, W2, T1, T2, F2, S1, S2. simpl.
+    destruct (IHr Qr (bnd ++ mb false l)) as (_ & _ & F3 & _ & G3).
+    rewrite W1, W2, T1, T2, F1, F3, S1, S2, G1, G3. simpl.
     assert (E : forall c', qfree c' = true -> qvars c' = []).
     { clear. induction c'; simpl; intros H; auto; try discriminate;
         try (apply andb_prop in H as [H1 H2]; rewrite IHc'1, IHc'2; auto). }
@@ -162,7 +161,6 @@ Definition nonemptyb (D : domains) (x : var) : bool := match D x with [] => fals
 
 Definition in_F01 (D : domains) (q : query) : bool :=
   let roots := flat_map opnd_vars (q_sels q) in
-  nodupb roots &&
   match q_cond q with
   | None => forallb (nonemptyb D) roots
   | Some c => wfq c && ok TS [] c && ok TC [] c && disj roots (qvars c) && forallb (nonemptyb D) (cond_vars c ++ roots)
@@ -170,14 +168,14 @@ Definition in_F01 (D : domains) (q : query) : bool :=
 
 Theorem in_F01_exact W D q : in_F01 D q = true -> forall row, In row (run W D q) <-> answer W D q row.
 Proof.
-  unfold in_F01. intros H. apply andb_prop in H as [Hnd H]. apply nodupb_spec in Hnd.
+  unfold in_F01. intros H.
   assert (Hne : forall xs, forallb (nonemptyb D) xs = true -> forall x, In x xs -> D x <> []).
   { intros xs Hf x Hx. rewrite forallb_forall in Hf. specialize (Hf x Hx). unfold nonemptyb in Hf.
     destruct (D x); [discriminate|congruence]. }
   destruct (q_cond q) as [c|] eqn:Ec.
   - apply andb_prop in H as [H Hd]. apply andb_prop in H as [H Hdj]. apply andb_prop in H as [H Htc].
     apply andb_prop in H as [Hwf Hts].
-    apply (run_exact_q W D q c Ec Hwf Hts Htc Hnd); [|now apply Hne].
+    apply (run_exact_q W D q c Ec Hwf Hts Htc); [|now apply Hne].
     intros x Hx. eapply disj_spec; eauto.
   - apply run_exact; auto.
     + now rewrite Ec.
